@@ -186,7 +186,8 @@ pub fn scenarios(tier: Tier) -> Vec<Scenario> {
     for sc in corpus::build(depth, false) {
         let Ok(schema) = corpus::parse_lib(&sc.text) else { continue };
         let vals = val::values(&sc.s, &sc.env, 2, 1);
-        let pick: Vec<usize> = if tier == Tier::Quick { vec![vals.len() - 1] } else { (0..vals.len()).collect() };
+        let _ = tier;
+        let pick: Vec<usize> = (0..vals.len()).collect();
         for vi in pick {
             let lv = to_lib(&vals[vi], &sc.s, &sc.env);
             let schema = schema.clone();
@@ -445,8 +446,8 @@ pub fn run(tier: Tier, replay: Option<&J>) -> i32 {
     let start = Instant::now();
     let scs = scenarios(tier);
     let bound = match tier {
-        Tier::Quick => 1,
-        Tier::Thorough => 2,
+        Tier::Quick => 2,
+        Tier::Thorough => 3,
     };
     let only = replay.and_then(|r| r["scenario_idx"].as_u64()).map(|x| x as usize);
     let st = scs
@@ -486,7 +487,7 @@ pub fn run(tier: Tier, replay: Option<&J>) -> i32 {
                 return st;
             }
             // deviation-bounded exploration: 0, 1, .. `bound` deviations
-            let depth = if sc.name.starts_with("datum/") { bound.min(if tier == Tier::Quick { 1 } else { 2 }) } else { bound.max(if sc.container { 1 } else { 2 }) };
+            let depth = if sc.name.starts_with("datum/") { bound.min(if tier == Tier::Quick { 2 } else { 3 }) } else { bound.max(if sc.container { 1 } else { 2 }) };
             explore(sc, sci, &expect, &mut vec![], depth, &mut st, &mut ord);
             // uniform policies: every call accepts at most c bytes
             for c in [1usize, 2, 3, 7] {
